@@ -1,7 +1,7 @@
 (* Statement-level model of read_rawcells (src/rawcell.cpp): the fifth GDSII reader.  It keeps, for every
    structure, the byte range of its records (offset of the BGNSTR record, accumulated size), its name and the
    names of the structures it references; at ENDLIB the dependency names are resolved against the name table
-   (unknown names: MissingReference; duplicates dropped).  Same loop shape as the other readers
+   (unknown names: MissingReference; duplicates dropped by swap-with-last, as Array::remove_unordered does).  Same loop shape as the other readers
    (GdsFrame.reader).  Definitions only. *)
 Require Import Base GdsFrame GdsModel.
 Local Open Scope N_scope.
@@ -43,13 +43,36 @@ Definition grow (n : N) (c : rawc) : rawc :=
 (* result: per name-table entry (key, cell, resolved dependency indices), and the MissingReference flag *)
 Definition nth_cell (cells : list rawc) (id : nat) : option rawc := nth_error (rev cells) id.
 
-Fixpoint resolve (m : list (bytes * nat)) (deps : list bytes) (acc : list nat) (missing : bool) : list nat * bool :=
+(* ENDLIB resolves the dependency array IN PLACE: items [0, i) are resolved cells (acc), items [i, count) still names (todo);
+   a name whose cell is already among the resolved ones, or is unknown, is removed with Array::remove_unordered(i), which
+   moves the LAST item into slot i - so the order of what remains is not the file order when a name repeats
+   (SNAMEs A A B C give [A; C; B]).  Each step shortens todo by one: the fuel is its length. *)
+Definition swap_last (tl : list bytes) : list bytes :=
+  match tl with [] => [] | x :: _ => last tl x :: removelast tl end.
+Fixpoint resolve_loop (fuel : nat) (m : list (bytes * nat)) (todo : list bytes) (acc : list nat) (missing : bool) : list nat * bool :=
+  match fuel with
+  | O => (acc, missing)
+  | S f =>
+      match todo with
+      | [] => (acc, missing)
+      | d :: tl =>
+          match map_get m d with
+          | Some id => if existsb (Nat.eqb id) acc then resolve_loop f m (swap_last tl) acc missing
+                       else resolve_loop f m tl (acc ++ [id]) missing
+          | None => resolve_loop f m (swap_last tl) acc true
+          end
+      end
+  end.
+Definition resolve (m : list (bytes * nat)) (deps : list bytes) (acc : list nat) (missing : bool) : list nat * bool :=
+  resolve_loop (length deps) m deps acc missing.
+(* the same set, in file order (what a stable removal would give): kept for comparison *)
+Fixpoint resolve_ordered (m : list (bytes * nat)) (deps : list bytes) (acc : list nat) (missing : bool) : list nat * bool :=
   match deps with
   | [] => (acc, missing)
   | d :: tl =>
       match map_get m d with
-      | Some id => if existsb (Nat.eqb id) acc then resolve m tl acc missing else resolve m tl (acc ++ [id]) missing
-      | None => resolve m tl acc true
+      | Some id => if existsb (Nat.eqb id) acc then resolve_ordered m tl acc missing else resolve_ordered m tl (acc ++ [id]) missing
+      | None => resolve_ordered m tl acc true
       end
   end.
 
